@@ -179,10 +179,26 @@ theorem C13_teardown_step (cfg : Cfg) (g : G) (t : Tid) (gc : GC)
     (g'.thr t).gc = none ∧ (g'.thr t).exc = none ∧ (g'.thr t).phase = .done ∧ (g'.thr t).tls = (g.thr t).tls ∧
     ∀ u, u ≠ t → g'.thr u = g.thr u := by
   rw [step_loc]
-  simp only [upd_same, lstep, lrun, hr, hg, if_true, GC.sweep]
-  refine ⟨by simp, trivial, trivial, trivial, trivial, ?_⟩
-  intro u hu
-  simp [upd_other _ _ _ _ hu]
+  simp only [upd_same, lstep, lrun, hr, hg, if_true]
+  have hsw : (gc.sweep []).2 = (gc.reg.filter (fun e => !e.2)).map (·.1) := by simp [GC.sweep]
+  split <;> (refine ⟨by simp [hsw], rfl, rfl, rfl, rfl, ?_⟩; intro u hu; simp [upd_other _ _ _ _ hu])
+
+/-- **Destructors may use exceptions at teardown.** With the epilogue order of the current source (collector first,
+    exception record second: `cfg.gcFirst`), no event of any schedule — no `del`, no collection and no thread teardown,
+    whatever destructors enter try blocks — runs without the thread's exception record: the outcome `crash` never occurs. -/
+theorem C13_teardown_survives_destructor_exceptions (cfg : Cfg) (hgf : cfg.gcFirst = true) (s : List Ev) :
+    ∀ eo ∈ (run cfg s G.init).2, eo.2 ≠ .crash :=
+  run_nocrash cfg hgf s G.init live_init
+
+/-- … and that is the order in /repo now (read from `Thread_Init_Run` by the translator on every run) -/
+theorem C13_teardown_order_current_source : CelloGen.Thr.teardownGcFirst = true := rfl
+
+/-- The order before commit 7de4bbc (exception record first) is refuted by a concrete schedule: a worker allocates one
+    object whose destructor does try/throw/catch and returns — the teardown sweep finds no exception record. -/
+theorem C13_teardown_old_order_refuted :
+    let old : Cfg := { gcFirst := false, consume := true, maxDepth := 2048, scan := fun _ => false }
+    ((run old [.spawn 0 1, .loc 1 .begin_, .loc 1 (.new 1 false true), .loc 1 .end_] G.init).2.map (fun eo => eo.2.show))
+      = ["spawned", "begun depth=0 gc=1 exc=1", "ok", "crash"] := by decide
 
 /-- `del` of another thread's object finalises nothing (it is looked up in the caller's registry only) -/
 theorem C13_foreign_del (cfg : Cfg) (s : List Ev) (t : Tid) (o : Obj) (ho : o.owner ≠ t) :
@@ -205,7 +221,7 @@ theorem C13_foreign_del (cfg : Cfg) (s : List Ev) (t : Tid) (o : Obj) (ho : o.ow
         simp only [decide_eq_true_eq]
         intro h
         exact ho (by rw [← h]; exact this)
-      simp [GC.rem, this]
+      simp [GC.rem, this, runDtors]
   · right; left; rfl
 
 /-- **Exceptions are per thread.** In any process state, an exception program run by thread `t` (whose record has no
@@ -254,24 +270,6 @@ theorem C13_error_translation :
     source, exactly the text the model was written against -/
 theorem C13_source_shape_as_modelled : CelloGen.Thr.shape = CelloGen.Thr.shapeModelled := rfl
 
-def Errno.name : Errno → String
-  | .zero => "0" | .einval => "EINVAL" | .edeadlk => "EDEADLK" | .ebusy => "EBUSY" | .eperm => "EPERM"
-  | .esrch => "ESRCH" | .eagain => "EAGAIN"
-
-def excOfName : String → Option Exc
-  | "ValueError" => some .valueError | "ResourceError" => some .resourceError | "KeyError" => some .keyError
-  | "OutOfMemoryError" => some .outOfMemoryError | "BusyError" => some .busyError | _ => none
-
-/-- what a table `[(errno, exception)]` extracted from the source does with error code `e` -/
-def tableTr (tab : List (String × String)) (e : Errno) : Option Exc := (tab.lookup e.name).bind excOfName
-
-def tableTry (tab : List (String × String)) (dflt : String) (e : Errno) : Option (Except Exc Bool) :=
-  match tab.lookup e.name with
-  | some "false" => some (.ok false)
-  | some "true" => some (.ok true)
-  | some x => (excOfName x).map .error
-  | none => if dflt = "true" then some (.ok true) else if dflt = "false" then some (.ok false) else none
-
 /-- the model's translation of pthread error codes is the one extracted from `Mutex_Lock`, `Mutex_Trylock`,
     `Mutex_Unlock`, `Thread_Join` and `Thread_Call` in the current source, for every error code -/
 theorem C13_error_translation_current_source (e : Errno) :
@@ -282,7 +280,7 @@ theorem C13_error_translation_current_source (e : Errno) :
 
 /-! ### non-vacuity: concrete schedules meet the hypotheses and exercise the interesting branches -/
 
-def cfgNow : Cfg := { consume := CelloGen.Exn.catchConsumes, maxDepth := CelloGen.Exn.maxDepth, scan := fun k => k.1 = 1 }
+def cfgNow : Cfg := { gcFirst := CelloGen.Thr.teardownGcFirst, consume := CelloGen.Exn.catchConsumes, maxDepth := CelloGen.Exn.maxDepth, scan := fun k => k.1 = 1 }
 
 /-- two workers contend for Mutex 0: the second `lock` is blocked, the `trylock` fails, after the release the second
     thread gets in; no UB; thread 1 is inside exactly between its acquisition and its release -/
@@ -304,7 +302,7 @@ example : (run cfgNow [.spawn 0 1, .loc 1 .begin_, .ld 0 9, .ld 1 9, .st 0 9, .s
 
 /-- a worker allocates, is torn down, is joined; the joiner reads its value; a foreign `del` finalises nothing -/
 def demoJoin : List Ev :=
-  [.loc 0 (.new 1 false), .spawn 0 1, .loc 1 .begin_, .loc 1 (.new 1 false), .loc 1 (.new 2 true), .loc 1 (.churn 3),
+  [.loc 0 (.new 1 false false), .spawn 0 1, .loc 1 .begin_, .loc 1 (.new 1 false false), .loc 1 (.new 2 true false), .loc 1 (.churn 3),
    .loc 0 (.del ⟨1, 1⟩), .loc 1 (.tset "a" ⟨1, 1⟩), .loc 1 (.collect []), .loc 1 (.pub 7), .join 0 1, .loc 1 .end_,
    .join 0 1, .rd 0 1, .loc 1 (.pub 9), .rd 0 1]
 
